@@ -335,6 +335,15 @@ func runC02(p *load.Program, r *core.Report) {
 		if errIdx < 0 {
 			continue
 		}
+		// the function's result is a delivery report only for a message the caller handed in: an
+		// internal control message built from a constant (the exit sent to a meta process whose owner
+		// has gone) is not what the result speaks about
+		if pl := storedMessageOf(mp.Msg); pl != nil {
+			if _, isGlobalLoad := reasonOriginGlobal(pl); isGlobalLoad && mp.Kind == "meta" {
+				r.Notes = append(r.Notes, fmt.Sprintf("D2 not applied to %s at %s: the pushed message is an internal constant (%s), the function's result does not report its delivery", fn, pos, "package-level error value"))
+				continue
+			}
+		}
 		var probs []string
 		// refused branch must not return nil; must not wake as if delivered is fine
 		for _, ret := range walkAvoid(fail, nil, isReturn) {
@@ -767,6 +776,31 @@ func c02Lookup(a *Anchors, r *core.Report, pushes []mailboxPush) {
 					what = "lookup in table " + strings.Join(path, ".")
 				}
 			} else if sf := staticCallee(cc); sf != nil && recvIs(sf, a.ProcessT) && sf.Name() == "isAlive" {
+				// a re-validation of the owner after a new meta process was entered into its table is not a
+				// test "of the target": its dead edge stops the new meta process by design (judged by C06.G3r)
+				reval := false
+				eachInstr(f, func(i2 ssa.Instruction) {
+					c2 := callCommon(i2)
+					if c2 == nil || len(c2.Args) < 3 || len(cc.Args) == 0 {
+						return
+					}
+					if m, ok := syncMapCall(c2); !ok || (m != "Store" && m != "LoadOrStore") {
+						return
+					}
+					if own, _ := fieldOwner(c2.Args[0]); own != a.ProcessT {
+						return
+					}
+					if pt, ok := stripIface(c2.Args[2]).Type().(*types.Pointer); !ok || pt.Elem() != types.Type(a.MetaT) {
+						return
+					}
+					b, _, _ := fieldPath(c2.Args[0])
+					if canon(b) == canon(cc.Args[0]) && instrDominates(i2, in) {
+						reval = true
+					}
+				})
+				if reval {
+					return
+				}
 				okVal, _ = in.(ssa.Value)
 				what = "liveness test of the target"
 			}
@@ -1498,4 +1532,22 @@ func c02SendAfter(a *Anchors, r *core.Report) {
 
 func instrReachable(from, to ssa.Instruction) bool {
 	return reaches([]Point{after(from)}, nil, func(i ssa.Instruction) bool { return i == to }) != nil
+}
+
+// reasonOriginGlobal: v is (an interface wrapping) the load of a package-level variable.
+func reasonOriginGlobal(v ssa.Value) (*ssa.Global, bool) {
+	for i := 0; i < 4; i++ {
+		switch x := v.(type) {
+		case *ssa.MakeInterface:
+			v = x.X
+		case *ssa.ChangeInterface:
+			v = x.X
+		}
+	}
+	if ld, ok := v.(*ssa.UnOp); ok && ld.Op == token.MUL {
+		if g, ok := ld.X.(*ssa.Global); ok {
+			return g, true
+		}
+	}
+	return nil, false
 }
